@@ -156,8 +156,14 @@ def lookup (name : String) : List (String × List Mask) → Option (List Mask)
 def need (fn name : String) : List Mask :=
   if exempt.contains (fn, name) then [] else (lookup name sensitive).getD []
 
-/-- every external symbol of the program is classified -/
+/-- every external symbol of the program is classified (sensitive or reviewed-benign) -/
 def classified (name : String) : Bool :=
-  (lookup name sensitive).isSome || benign.contains name || name.startsWith "llvm."
+  (lookup name sensitive).isSome || benign.contains name
+
+def allKnown : List String := sensitive.map (·.1) ++ benign
+
+/-- same, with an (untrusted) index into `allKnown` for each name so that the kernel does one comparison per name -/
+def classifiedAll (names : List String) (idx : List Nat) : Bool :=
+  names.length == idx.length && (names.zip idx).all (fun p => allKnown.getD p.2 "" == p.1)
 
 end JanetModel.Sandbox
